@@ -380,8 +380,61 @@ def _subterms(t):
             yield from _subterms(x)
 
 
+def check_scope_lookup(ck, F, S):
+    """Scope::operator[](name) answers from the table of overload sets, for every name."""
+    R = ck.rule('C07.scope-lookup', 'looking a name up in a scope that holds a declaration searches the table of overload sets with that '
+                'very name on every path, and yields the set found, or nothing when the search fails: no name is answered without the '
+                'search (evaluated on the state a first declaration left, with a second, unrelated name)', floor=2)
+    op = F.need_fn('ipr::impl::Scope::operator[](const ipr::Name &) const')
+    mk = F.need_fn([f['id'] for f in F.fns_in(SCOPE) if f['name'] == 'make_var'][0])
+    try:
+        firsts = [r for r in S.run(mk['id']) if r[1] == 'return']
+    except Unsupported as e:
+        raise AnalysisBroken(f'{mk["id"]}: {e}')
+    if len(firsts) != 1:
+        raise AnalysisBroken(f'{mk["id"]}: {len(firsts)} paths on an empty scope')
+    st1 = firsts[0][0]
+    Qn = ('param', 100)
+    try:
+        outs = S.run(op['id'], args=[Qn], state=st1.fork())
+    except Unsupported as e:
+        raise AnalysisBroken(f'{op["id"]}: {e}')
+    base = len(st1.effects)
+    kinds = set()
+    problems = []
+    for st, k, v in outs:
+        if k != 'return':
+            problems.append(f'may throw {v}')
+            continue
+        finds = [e for e in st.effects[base:] if e[0] == 'tree_find' and e[2] == Qn]
+        shown = contracts.render(v, st, {})
+        found = [c for c, val in st.conds if isinstance(c, tuple) and c and c[0] == 'found' and c[2] == Qn]
+        if not finds or not found:
+            problems.append(f'answers `{shown}` under ({contracts.render_conds(st.conds[len(st1.conds):], st, {})[:120]}) without searching the overload '
+                            'sets for the name: a declaration entered under such a name is not found')
+            continue
+        hit = [c for c, val in st.conds if isinstance(c, tuple) and c and c[0] == 'found' and c[2] == Qn and val]
+        if hit:
+            el = hit[0][3]
+            good = shown.startswith('some(') and isinstance(el, tuple) and any(t == el for t in _subterms(st.heap[v[1]].fields if False else v)) or \
+                (isinstance(v, tuple) and v[0] == 'obj' and any(fv == ('addr', el) or fv == el for fv in st.heap[v[1]].fields.values()))
+            kinds.add('found')
+            if not good:
+                problems.append(f'the search finds an overload set but the answer is `{shown}`')
+        else:
+            kinds.add('absent')
+            if shown != 'absent':
+                problems.append(f'the search fails but the answer is `{shown}`')
+    for need in ('found', 'absent'):
+        if need not in kinds:
+            problems.append(f'no `{need}` outcome')
+    ck.check(R, 'Scope::operator[]/found', not [p for p in problems if 'fails' not in p and 'absent' not in p.split(':')[0]], f'{op["id"]}: ' + '; '.join(problems), loc=op['loc'], fn=op['id'])
+    ck.check(R, 'Scope::operator[]/absent', not problems, f'{op["id"]}: ' + '; '.join(problems), loc=op['loc'], fn=op['id'])
+
+
 def check_homogeneous(ck, F, S):
     """Parameter lists, enumerations, base lists, handler regions: singleton sets."""
+    check_scope_lookup(ck, F, S)
     check_tree_lookup(ck, F)
     check_homogeneous_lookup(ck, F, S)
     R = ck.rule('C07.singleton-sets', 'parameters, enumerators, bases and exception parameters are their own master, their '
